@@ -66,7 +66,87 @@ def order_pool():
     P["dm_z"] = X.binop("|", X.binop("|", dd((1, 2)), dd((1, 3))), dd((2, 2)))
     P["tt"] = X.tup([("a", X.tup([("b", N(1))]))])
     P["tset"] = X.tup([("a", X.set_([N(1)]))])
+    P.update(model_pool())
     return P
+
+
+def model_pool():
+    """Dict / Relation / UnionSet values (and values holding them) whose comparisons are decided deep inside the
+    transcribed Less methods: same keys and different values, keys of several kinds, several values under a key,
+    one heading and different rows, different headings, row counts, a heading whose rows compare in reverse (@neg),
+    unions differing in one bucket, the empty tuple among non-tuples, all of them nested in tuples, sets and arrays."""
+    Q = {}
+    S = X.string
+    dd = lambda *kv: X.dict_([(N(k), N(v)) for k, v in kv])
+    Q["dk_ab3"] = X.dict_([(S("a"), N(1)), (S("b"), N(3))])                 # vs dab = {"a": 1, "b": 2}
+    Q["dk_ac"] = X.dict_([(S("a"), N(1)), (S("c"), N(0))])
+    Q["dk_tup"] = X.dict_([(X.tup([("a", N(1))]), N(2))])
+    Q["dk_set"] = X.dict_([(X.set_([N(1)]), N(2)), (X.set_([]), N(3))])
+    Q["dk_mixk"] = X.dict_([(N(1), N(2)), (S("a"), N(1))])
+    Q["dk_nest"] = X.dict_([(N(1), dd((1, 2)))])
+    Q["dk_nest2"] = X.dict_([(N(1), dd((1, 3)))])
+    Q["dk_123"] = dd((1, 2), (2, 3), (3, 4))
+    Q["dk_12"] = dd((1, 2), (2, 3))
+    Q["dm_mixv"] = X.binop("|", dd((1, 2)), X.dict_([(N(1), S("a"))]))
+    Q["dm_3v"] = X.binop("|", X.binop("|", dd((1, 2)), dd((1, 3))), dd((1, 4)))
+    Q["r_neg12"] = X.rel(["@neg"], [[N(1)], [N(2)]])
+    Q["r_neg03"] = X.rel(["@neg"], [[N(0)], [N(3)]])
+    Q["r_neg13"] = X.rel(["@neg"], [[N(1)], [N(3)]])
+    Q["r_a3"] = X.rel(["a"], [[N(0)], [N(1)], [N(2)]])                       # more rows than r_a, smaller first row
+    Q["r_a13"] = X.rel(["a"], [[N(1)], [N(3)]])
+    Q["r_a123"] = X.rel(["a"], [[N(1)], [N(2)], [N(3)]])                    # r_a is a prefix of its rows: only Count() decides
+    Q["r_ac"] = X.rel(["a", "c"], [[N(1), N(2)], [N(1), N(3)]])              # vs r_ab: heading decides
+    Q["r_abc"] = X.rel(["a", "b", "c"], [[N(0), N(0), N(0)]])                # longer heading
+    Q["r_mix"] = X.set_([X.tup([("a", N(1)), ("b", S("x"))]), X.tup([("a", X.set_([N(1)])), ("b", N(2))])])
+    Q["r_mix2"] = X.set_([X.tup([("a", N(1)), ("b", S("y"))]), X.tup([("a", X.set_([N(1)])), ("b", N(2))])])
+    Q["r_rr"] = X.rel(["a"], [[X.rel(["b"], [[N(1)]])], [X.rel(["b"], [[N(2)]])]])
+    Q["r_rr2"] = X.rel(["a"], [[X.rel(["b"], [[N(1)]])], [X.rel(["c"], [[N(0)]])]])
+    Q["r_ta"] = X.rel(["a"], [[X.tup([("x", N(1))])], [X.tup([("@neg", N(5))])]])
+    Q["u_3b"] = X.set_([N(1), X.tup([("a", N(2))]), pool.pair("@char", 0, N(97)), pool.pair("@item", 0, N(5))])
+    Q["u_3c"] = X.set_([N(1), X.tup([("a", N(1))]), pool.pair("@char", 0, N(97)), pool.pair("@item", 0, N(6))])
+    Q["u_3d"] = X.set_([N(1), N(2), X.tup([("a", N(1))]), pool.pair("@char", 0, N(97)), pool.pair("@item", 0, N(5))])
+    Q["u_3e"] = X.set_([N(1), X.tup([("a", N(1))]), pool.pair("@char", 1, N(97)), pool.pair("@item", 0, N(5))])
+    Q["u_2b"] = X.set_([N(1), X.tup([("a", N(1))])])                         # fewer buckets than u_3
+    Q["u_pre"] = X.set_([N(1), pool.pair("@char", 0, N(97))])                # its ordered buckets are a prefix of those of u_3
+    Q["u_rel2b"] = X.set_([X.tup([("a", N(1))]), X.tup([("b", N(2))])])
+    Q["u_rel3"] = X.set_([X.tup([("a", N(1))]), X.tup([("b", N(1))]), X.tup([("a", N(1)), ("b", N(1))])])
+    Q["u_de"] = X.set_([X.tup([("@", N(1)), ("@value", N(2))]), N(1)])      # a dict bucket
+    Q["u_de2"] = X.set_([X.tup([("@", N(1)), ("@value", N(3))]), N(1)])
+    Q["u_by"] = X.set_([pool.pair("@byte", 0, N(1)), pool.pair("@char", 0, N(97))])
+    Q["s_t0n"] = X.set_([X.tup([]), N(1)])                                   # () files with the non-tuples: a generic set
+    Q["s_t0s"] = X.set_([X.tup([]), X.set_([])])
+    Q["u_t0a"] = X.set_([X.tup([]), X.tup([("a", N(1))])])                   # buckets {()} = true and a relation
+    Q["t_d12"] = X.tup([("a", dd((1, 2)))])
+    Q["t_d13"] = X.tup([("a", dd((1, 3)))])
+    Q["t_u"] = X.tup([("a", X.set_([N(1), S("a")]))])
+    Q["t_r"] = X.tup([("a", X.rel(["a"], [[N(1)], [N(2)]]))])
+    Q["s_dd"] = X.set_([dd((1, 2)), dd((1, 3))])
+    Q["s_d"] = X.set_([dd((1, 2))])
+    Q["s_rr"] = X.set_([X.rel(["a"], [[N(1)], [N(2)]]), X.rel(["a", "b"], [[N(1), N(2)], [N(1), N(3)]])])
+    Q["s_uu"] = X.set_([X.set_([N(2), S("a")]), X.set_([N(1), X.tup([("a", N(1))])])])
+    Q["s_u1"] = X.set_([X.set_([N(2), S("a")])])
+    Q["ar_dd"] = X.arr([dd((1, 2)), dd((1, 3))])
+    Q["ar_du"] = X.arr([dd((1, 2)), X.set_([N(1), S("a")])])
+    # @neg wrappers written as tuples (what Negate() builds), so that the reference interpreter evaluates them too
+    Q["tn_set1"] = X.tup([("@neg", X.set_([N(1)]))])
+    Q["tn_set2"] = X.tup([("@neg", X.set_([N(2)]))])
+    Q["tn_tup1"] = X.tup([("@neg", X.tup([("a", N(1))]))])
+    Q["tn_tup2"] = X.tup([("@neg", X.tup([("a", N(2))]))])
+    Q["tn_num"] = X.tup([("@neg", N(1))])
+    Q["tn_d"] = X.tup([("@neg", dd((1, 2)))])
+    Q["neg_d"] = X.unop("-", dd((1, 2)))
+    Q["neg_r"] = X.unop("-", X.rel(["a"], [[N(1)], [N(2)]]))
+    Q["neg_u"] = X.unop("-", X.set_([N(2), S("a")]))
+    return Q
+
+
+GO_TYPE = {0: "rel.Number", 1: "rel.EmptySet", 2: "rel.TrueSet", 3: "rel.GenericSet", 4: "rel.String", 5: "rel.Bytes",
+           6: "rel.Array", 7: "rel.Dict", 8: "rel.UnionSet", 9: "rel.Relation", 10: "*rel.GenericTuple",
+           11: "rel.StringCharTuple", 12: "rel.ArrayItemTuple", 13: "rel.DictEntryTuple", 14: "rel.BytesByteTuple",
+           15: "*rel.GenericTuple"}
+KIND_NAME = {0: "Number", 1: "EmptySet", 2: "TrueSet", 3: "GenericSet", 4: "String", 5: "Bytes", 6: "Array", 7: "Dict",
+             8: "UnionSet", 9: "Relation", 10: "GenericTuple", 11: "StringCharTuple", 12: "ArrayItemTuple",
+             13: "DictEntryTuple", 14: "BytesByteTuple", 15: "@neg"}
 
 
 def pair_src(a, b):
@@ -93,19 +173,25 @@ def main(tier, seed, replay=None):
         rp = json.load(open(replay))
         names = [n for n in rp["case"].get("values", []) if n in P] or names
     elif tier == "quick":
-        # a stratified sample: one representative per representation family plus random others
+        # near-miss pairs are always in: they differ in exactly one respect (hole vs {}, key vs value order, offset only, ...)
+        pick = set(n for n in ("ar_hole", "ar_empty_mid", "ar_empty_mid2", "ar_hole2", "ar_123", "te_19", "te_23", "te_13", "ti_19", "ti_23",
+                               "tc_1", "tc_2", "tb_1", "tb_2", "d19_23", "d12", "rj_ba", "r_ab", "rj_4", "r_4lit", "r_4nb", "rj_3c", "r_3clit", "str_sur1", "str_sur2", "str_fffd", "str_sur_h", "dm_12_13", "dm_12_20", "dm_x", "dm_y", "dm_z", "str_off", "str_a", "by_off", "by_12",
+                               "empty", "true", "t0", "neg_set", "neg_tup") if n in P)
+        # the Dict / Relation / UnionSet core whose comparisons the model decides (same keys and different values, key kinds,
+        # several values, headings, row counts, reversed rows, unions differing in one bucket, () among non-tuples, nesting)
+        pick.update(n for n in ("dk_ab3", "dab", "dk_tup", "dk_set", "dk_nest", "dk_nest2", "dm_mixv", "dm_3v", "d13",
+                                "r_neg12", "r_neg03", "r_a", "r_a3", "r_a123", "r_ac", "r_mix", "r_mix2", "r_rr", "r_rr2",
+                                "u_3", "u_3b", "u_3c", "u_3d", "u_pre", "u_rel2", "u_rel2b", "u_de", "u_de2", "s_t0n", "u_t0a",
+                                "t_d12", "t_d13", "s_dd", "s_uu", "neg_d", "tn_set1", "tn_set2", "tn_tup1", "tn_tup2", "tn_num") if n in P)
+        # a stratified sample: every representation family is represented, plus random others
         fam = {}
         for n in names:
             fam.setdefault(n.split("_")[0].rstrip("0123456789."), []).append(n)
-        pick = set()
-        for f, lst in fam.items():
-            pick.update(rng.sample(lst, min(len(lst), 2)))
-        # near-miss pairs are always in: they differ in exactly one respect (hole vs {}, key vs value order, offset only, ...)
-        pick.update(n for n in ("ar_hole", "ar_empty_mid", "ar_empty_mid2", "ar_hole2", "ar_123", "te_19", "te_23", "te_13", "ti_19", "ti_23",
-                                "tc_1", "tc_2", "tb_1", "tb_2", "d19_23", "d12", "rj_ba", "r_ab", "rj_4", "r_4lit", "r_4nb", "rj_3c", "r_3clit", "str_sur1", "str_sur2", "str_fffd", "str_sur_h", "dm_12_13", "dm_12_20", "dm_x", "dm_y", "dm_z", "str_off", "str_a", "by_off", "by_12",
-                                "empty", "true", "t0", "neg_set", "neg_tup") if n in P)
+        for f, lst in sorted(fam.items()):
+            if not pick.intersection(lst):
+                pick.update(rng.sample(lst, 1))
         rest = [n for n in names if n not in pick]
-        pick.update(rng.sample(rest, min(len(rest), 6)))
+        pick.update(rng.sample(rest, min(len(rest), 5)))
         names = sorted(pick)
     reqs, idx = [], {}
     for a in names:
@@ -175,20 +261,55 @@ def main(tier, seed, replay=None):
                                             "oracle": "comparison of two data values does not evaluate"})
     elif run.finding_for("neg-nested"):
         run.corr_breaks.append({"what": "open finding neg-nested no longer reproduces", "observed": w})
+    # the representation the model predicts for every value (kind_of) vs the Go type and Kind() of the implementation's value
+    nid = {n: i for i, n in enumerate(names)}
+    gouts, _, _ = run_harness(vh, "gotype", [{"id": nid[n], "src": X.src(P[n])} for n in names])
+    body = ["From Arrai Require Import Base.Val Spec.SetAlg Eval.Interp Check.EvalCheck Check.C06Check.",
+            "Definition vals : list (Z * expr) := [", ";\n".join("  (%d, %s)" % (nid[n], X.coq(P[n])) for n in names),
+            "].\nDefinition R := Eval vm_compute in value_kinds vals.\nPrint R."]
+    _, so, se = coq_eval("c06_kinds_%d" % os.getpid(), "\n".join(body))
+    vk = coq_report(so, "R")
+    kind_of, in_domain, rep_checked = {}, {}, 0
+    if vk is None:
+        run.corr_breaks.append({"what": "kind_of could not be evaluated (Check/C06Check.v value_kinds)", "log": se[-1200:]})
+    else:
+        for i, code in vk:
+            n = names[i]
+            if code < 0:
+                continue
+            in_domain[n], kind_of[n], knum = code >= 1000000, (code % 1000000) // 1000, code % 1000
+            g = gouts.get(i) or {}
+            if g.get("st") != "ok":
+                continue
+            rep_checked += 1
+            if g.get("gotype") != GO_TYPE[kind_of[n]] or abs(int(g.get("kind", 0))) != knum:
+                run.corr_breaks.append({"what": "the representation of a value differs from the one the model of the order assumes (Rep/Less.v kind_of)",
+                                        "case": {"values": [n], "src": X.src(P[n])}, "observed": {"gotype": g.get("gotype"), "kind": g.get("kind")},
+                                        "model": {"gotype": GO_TYPE[kind_of[n]], "kind": knum}})
+    cells = {}
+    for (a, b) in lt:
+        if a in kind_of and b in kind_of:
+            key = "%s x %s" % (KIND_NAME[kind_of[a]], KIND_NAME[kind_of[b]])
+            cells[key] = cells.get(key, 0) + 1
     # correspondence of < and = with the model of the Go order (Rep/Less.v) inside Coq
     cases = [{"id": i, "a": a, "b": b} for i, (a, b) in idx.items() if (a, b) in lt]
-    chunks = [cases[i:i + 400] for i in range(0, len(cases), 400)]
+    chunks = [cases[i:i + 1500] for i in range(0, len(cases), 1500)]
     modelled = 0
+
+    pool_term = "Definition pool : list expr := [\n" + ";\n".join("  " + X.coq(P[n]) for n in names) + "\n]."
 
     def do(ic):
         k, chunk = ic
-        body = ["From Arrai Require Import Base.Val Spec.SetAlg Eval.Interp Check.EvalCheck Check.C06Check.",
+        body = ["From Arrai Require Import Base.Val Spec.SetAlg Eval.Interp Check.EvalCheck Check.C06Check.", pool_term,
                 "Definition cases : list case06 := ["]
-        body.append(";\n".join("  {| o_id := %d; o_a := %s; o_b := %s; o_lt := %s; o_eq := %s |}" % (
-            c["id"], X.coq(P[c["a"]]), X.coq(P[c["b"]]), cbool(lt[(c["a"], c["b"])]), cbool(eq[(c["a"], c["b"])])) for c in chunk))
-        body.append("].\nDefinition R := Eval vm_compute in report06 cases.\nPrint R.\nDefinition MC := Eval vm_compute in [modelled_count cases].\nPrint MC.")
+        body.append(";\n".join("  {| o_id := %d; o_a := %d; o_b := %d; o_lt := %s; o_eq := %s |}" % (
+            c["id"], nid[c["a"]], nid[c["b"]], cbool(lt[(c["a"], c["b"])]), cbool(eq[(c["a"], c["b"])])) for c in chunk))
+        body.append("].\nDefinition R := Eval vm_compute in report06 pool cases.\nPrint R.")
         rc2, so, se = coq_eval("c06_cases_%d_%d" % (os.getpid(), k), "\n".join(body))
-        return coq_report(so, "R"), coq_report(so, "MC"), se
+        rep = coq_report(so, "R")
+        if rep is None:
+            return None, None, se
+        return [r for r in rep if r[0] >= 0], [r[1] for r in rep if r[0] < 0], se
 
     with concurrent.futures.ThreadPoolExecutor(max_workers=12) as ex:
         for (rep, mc, se), chunk in zip(ex.map(do, enumerate(chunks)), chunks):
@@ -202,15 +323,30 @@ def main(tier, seed, replay=None):
                 if code == 2:
                     rec["oracle"] = "a = b differs from equality of denotations"
                     run.classify_failure(None, rec)
-                else:
+                elif code == 1:
                     run.corr_breaks.append({"what": "a < b differs from the model of the Go order (Rep/Less.v rless)", **rec})
+                elif code == 3:
+                    run.corr_breaks.append({"what": "the model of the Go order predicts a panic where the implementation answers (Rep/Less.v rless)", **rec})
+                else:
+                    run.corr_breaks.append({"what": "the model of the Go order ran out of fuel (Check/C06Check.v FUEL06)", **rec})
+    # every pair of values the specification evaluates must be decided by the model (no kind is left to the oracle alone)
+    expected = sum(1 for c in cases if c["a"] in kind_of and c["b"] in kind_of)
+    if vk is not None and modelled != expected:
+        run.corr_breaks.append({"what": "pairs decided by the model (%d) differ from the pairs of values it covers (%d)" % (modelled, expected)})
+    same_kind_pairs = {k: v for k, v in cells.items() if k.split(" x ")[0] == k.split(" x ")[1]}
     run.cov.update({
         "evaluations": len(reqs) + len(sreqs), "distinct_nontrivial": sum(1 for k in lt if lt[k]),
-        "rule": "all ordered pairs over %d values of the order pool (every kind and representation: numbers, generic and sugar tuples, @neg wrappers, empty/true, generic sets, strings/bytes/arrays with offsets and holes, dicts, relations, union sets, nested): a<b, b<a, a=b, <=, >=, > through syntax.EvaluateExpr; trichotomy on every pair, transitivity on every triple of the pair matrix, derived operators, orderby/printing of shuffled constructions; distinct non-trivial = ordered pairs with a < b" % len(names)
+        "rule": "all ordered pairs over %d values of the order pool (every kind and representation: numbers, generic and sugar tuples, @neg wrappers, empty/true, generic sets, strings/bytes/arrays with offsets and holes, dicts incl. several values under a key, relations, union sets, nested): a<b, b<a, a=b, <=, >=, > through syntax.EvaluateExpr; trichotomy on every pair, transitivity on every triple of the pair matrix, derived operators, orderby/printing of shuffled constructions; distinct non-trivial = ordered pairs with a < b" % len(names)
                 + ("; thorough = the whole pool (%d values)" % len(P) if tier == "thorough" else "; quick = stratified sample of the pool"),
         "samples": [reqs[i]["src"] for i in range(0, len(reqs), max(1, len(reqs) // 6))][:6],
         "pairs_checked_trichotomy": ntri, "triples_checked_transitivity": ntrans, "sort_comparisons": nsort,
         "pairs_compared_with_model": modelled, "exhaustive": tier == "thorough",
+        "representations_compared_with_model": rep_checked,
+        "values_in_theorem_domain": sum(1 for n in in_domain if in_domain[n]), "values_outside_theorem_domain": sorted(n for n in in_domain if not in_domain[n]),
+        "values_by_kind": {KIND_NAME[k]: sum(1 for n in kind_of if kind_of[n] == k) for k in sorted(set(kind_of.values()))},
+        "pairs_by_kind_same_kind": dict(sorted(same_kind_pairs.items())),
+        "pairs_by_kind_x_kind": dict(sorted(cells.items())),
     })
-    run.assumptions = ["functions are outside the data fragment", "Dict/Relation/UnionSet comparisons are checked by the oracle only (not modelled)"]
+    run.assumptions = ["functions are outside the data fragment",
+                       "the order theorem speaks about values the Go representations can hold: canonical, sugar tuples well typed, no two sequence items at one index, no hand-written nested @neg (go_ok)"]
     return run.finish(proof)
